@@ -495,3 +495,11 @@ package hclsyntax
 // verif:func (*IndexExpr).Value
 //@ nosafety
 //@ ensures marks: len(ret1) == 0 ==> (forall k iface :: { marked(ret0, k) } marked(exprVal(old(e.Collection), ctx), k) ==> marked(ret0, k))
+
+// Object constructors: the marks of every key value are on the result (an unknown or invalid key
+// makes the whole result cty.DynamicVal, which must still carry the marks collected so far), unless a
+// diagnostic is reported.
+// verif:func (*ObjectConsExpr).Value
+//@ nosafety
+//@ ensures keymarks: len(ret1) > 0 || (forall j int, k iface :: { marked(exprVal(old(e.Items[j].KeyExpr), ctx), k) } 0 <= j && j < old(len(e.Items)) && marked(exprVal(old(e.Items[j].KeyExpr), ctx), k) ==> marked(ret0, k))
+//@ loop 1 invariant len(diags) > 0 || (forall j int, k iface :: { marked(exprVal(e.Items[j].KeyExpr, ctx), k) } 0 <= j && j <= rangeindex && marked(exprVal(e.Items[j].KeyExpr, ctx), k) ==> (exists i int :: { marks[i] } 0 <= i && i < len(marks) && has(marks[i], k)))
